@@ -490,7 +490,14 @@ func resultKey(rr *RunResult) string {
 // journalKey is the canonical event log: operations, digests and the schedule hash.
 func journalKey(rr *RunResult) string {
 	var sb strings.Builder
-	for _, e := range rr.Ends {
+	ends := rr.Ends
+	if rr.Spec != nil && rr.Spec.Pool == "real" && rr.Spec.Tasks > 1 {
+		// (see below: with the runtime's own pool the switch points of a multi-task run may move, and with them the
+		// order in which the tasks' operations complete: the results are compared by slot, not by completion order)
+		ends = append([]Rec(nil), ends...)
+		sort.SliceStable(ends, func(i, j int) bool { return ends[i].Slot < ends[j].Slot })
+	}
+	for _, e := range ends {
 		fmt.Fprintf(&sb, "%d:%d:%s:%s;", e.Slot, e.Op, e.Cls, e.D)
 	}
 	for _, v := range rr.Viols {
